@@ -382,11 +382,81 @@ class MTSched:
         return f
 
 
+class _SpinLock:
+    """A module-level lock of the package while simulated threads are pre-empted between the
+    library's lines: a thread that finds it taken hands the baton on until the holder (which the
+    simulator may have parked in the middle of its critical section) has released it."""
+
+    def __init__(self, mt, real, reentrant):
+        self.mt, self.real, self.reentrant = mt, real, reentrant
+        self.owner = None
+        self.depth = 0
+
+    def _sim(self):
+        cur = self.mt.current
+        return cur is not None and cur.thread is threading.current_thread()
+
+    def acquire(self, blocking=True, timeout=-1):
+        if not self._sim():
+            return self.real.acquire(blocking, timeout)
+        me = threading.current_thread()
+        spins = 0
+        while self.owner is not None and not (self.reentrant and self.owner is me):
+            if not blocking:
+                return False
+            spins += 1
+            if spins > 100000:
+                raise Deadlock("a simulated thread waits for a lock that is never released")
+            self.mt.yield_point(None)
+        self.owner = me
+        self.depth += 1
+        return True
+
+    def release(self):
+        if not self._sim() and self.owner is None:
+            return self.real.release()
+        self.depth -= 1
+        if self.depth <= 0:
+            self.owner = None
+            self.depth = 0
+
+    def locked(self):
+        return self.owner is not None
+
+    __enter__ = acquire
+
+    def __exit__(self, *a):
+        self.release()
+        return False
+
+
+def _own_package_locks(mt, package="func_adl"):
+    lock_t, rlock_t = type(threading.Lock()), type(threading.RLock())
+    saved = []
+    for name, mod in list(sys.modules.items()):
+        if mod is None or not (name == package or name.startswith(package + ".")):
+            continue
+        for attr, val in list(vars(mod).items()):
+            if isinstance(val, (lock_t, rlock_t)):
+                setattr(mod, attr, _SpinLock(mt, val, isinstance(val, rlock_t)))
+                saved.append((mod, attr, val))
+    return saved
+
+
 def run_threads(world: World, fns, preempt_p=0.0, prefix=None):
     """Run the callables as simulated threads to completion under the world's scheduler.  The
     calling (coordinator) thread is blocked meanwhile."""
     mt = MTSched(world, preempt_p, prefix)
     world.last_mt = mt
+    saved_locks = _own_package_locks(mt) if preempt_p else []
+    try:
+        return _run_threads(world, mt, fns)
+    finally:
+        for mod, attr, val in saved_locks:
+            setattr(mod, attr, val)
+
+
+def _run_threads(world, mt, fns):
     world.mt = mt
     try:
         ts = [mt.spawn(f"user{i}", fn) for i, fn in enumerate(fns)]
